@@ -55,6 +55,14 @@ func (i *rwInterceptor) WriteHeader(statusCode int) {
 		return
 	}
 
+	if statusCode >= 100 && statusCode <= 199 && statusCode != http.StatusSwitchingProtocols {
+		// Informational responses (e.g. 103 Early Hints) are sent at once and do not end the
+		// header phase: the handler still has to provide the final status, which is the one
+		// the response phases look at.
+		i.w.WriteHeader(statusCode)
+		return
+	}
+
 	i.wroteHeader = true
 
 	for k, vv := range i.w.Header() {
